@@ -33,7 +33,7 @@ def main(argv=None):
             s.setdefault('tier', a.tier)
             s.setdefault('shard', i)
             s.setdefault('nshards', len(specs))
-    timeout = getattr(mod, 'SHARD_TIMEOUT', {'quick': 900, 'thorough': 7200})[a.tier]
+    timeout = getattr(mod, 'SHARD_TIMEOUT', {'quick': 420, 'thorough': 7200})[a.tier]
     results = harness.run_shards(pid, specs, timeout)
     slow = sorted(((round(r['wall'], 1), r['idx'], specs[r['idx']].get('kind')) for r in results), reverse=True)[:3]
     m = harness.merge(results)
